@@ -308,6 +308,42 @@ func c07Huge(c *fw.Ctx, idx int) {
 	}
 	c.Count("huge_roundtrips")
 	c.Distinct(fmt.Sprintf("huge/%s/%d", how, n))
+	// the same document with one position an ordinate short and another an ordinate
+	// long (the total is unchanged): an error, or a well-formed geometry - never
+	// positions silently shifted
+	if idx%3 == 0 || idx%3 == 1 {
+		doc := string(data)
+		short, long := "[0.5,1.5]", "[0.5,1.5,2.5]"
+		if stride == 3 {
+			short, long = "[0.5,1.5,2.5]", "[0.5,1.5,2.5,3.5]"
+		}
+		_ = short
+		// position 0 is (0.5, 1.5[, 2.5]): lengthen it, and shorten the position after the middle
+		i0 := strings.Index(doc, short)
+		if i0 >= 0 {
+			rag := doc[:i0] + long + doc[i0+len(short):]
+			mid := len(rag) / 2
+			if j := strings.Index(rag[mid:], "],["); j >= 0 {
+				// drop the last ordinate of the position ending at mid+j
+				k := strings.LastIndex(rag[:mid+j], ",")
+				rag = rag[:k] + rag[mid+j:]
+				var rb geom.T
+				var rerr error
+				if c.Guard("panic", func() { rerr = geojson.Unmarshal([]byte(rag), &rb) }) {
+					return
+				}
+				c.Eval(1)
+				c.Count("huge_ragged_documents")
+				if rerr == nil && rb != nil && !isNilGeom(rb) {
+					if !wfCheck(c, "geojson.Unmarshal of a ragged document", rb) {
+						return
+					}
+					c.Fail("accepted-invalid", "a %s of %d positions in which one position has an ordinate too many and another one too few was accepted", how, n)
+					return
+				}
+			}
+		}
+	}
 	if back == nil || isNilGeom(back) {
 		c.Fail("nil-geometry", "nil geometry decoded")
 		return
@@ -526,6 +562,40 @@ func c07Feature(c *fw.Ctx, idx int) {
 	}
 	if !c07CompareFeature(c, "Feature round trip", f, gm, &back) {
 		return
+	}
+	// the caller changes the feature's geometry in place - the same positions in the
+	// opposite order - and marshals the same Feature value again: the document is
+	// that of the geometry as it is now
+	if gm != nil && gm.Kind != model.Collection && !gm.IsEmpty() && r.Chance(1, 3) {
+		fcs, st := f.Geometry.FlatCoords(), f.Geometry.Stride()
+		n := len(fcs) / st
+		for i, j := 0, n-1; i < j; i, j = i+1, j-1 {
+			for k := 0; k < st; k++ {
+				fcs[i*st+k], fcs[j*st+k] = fcs[j*st+k], fcs[i*st+k]
+			}
+		}
+		gm2 := model.FromGeom(f.Geometry)
+		var data2 []byte
+		if c.Guard("panic", func() { data2, err = f.MarshalJSON() }) {
+			return
+		}
+		c.Eval(1)
+		var back2 geojson.Feature
+		if err == nil {
+			if c.Guard("panic", func() { err = back2.UnmarshalJSON(data2) }) {
+				return
+			}
+		}
+		c.Count("feature_marshalled_again_after_its_geometry_was_changed_in_place")
+		if err != nil {
+			c.Fail("marshal-error", "Feature marshalled again after an in-place change of its geometry: %v", err)
+			return
+		}
+		if !c07CompareFeature(c, "Feature marshalled again after its positions were reversed in place", f, gm2, &back2) {
+			return
+		}
+		gm = gm2
+		data = data2
 	}
 	// decoding into a Feature value that still holds the previous case's result
 	// must give the same as decoding into a fresh one
